@@ -69,6 +69,20 @@ impl Default for Caps {
     }
 }
 
+/// Resident set size of this process in bytes (Linux).
+pub fn rss_bytes() -> u64 {
+    std::fs::read_to_string("/proc/self/statm")
+        .ok()
+        .and_then(|s| s.split_whitespace().nth(1).and_then(|x| x.parse::<u64>().ok()))
+        .map(|pages| pages * 4096)
+        .unwrap_or(0)
+}
+
+/// RSS cap for explorers (bytes); the frontier of the next level is estimated before expanding.
+pub fn rss_cap() -> u64 {
+    std::env::var("VERIF_RSS_CAP_GB").ok().and_then(|s| s.parse::<u64>().ok()).unwrap_or(20) * (1 << 30)
+}
+
 /// Explore all histories up to `max_depth`. With `dedup` states with equal fingerprints are merged
 /// (sound: equal values have equal futures); without it the plain tree is searched (stateless guard).
 pub fn bfs<S: Spec>(spec: &S, max_depth: usize, dedup: bool, rep: &Report, caps: &Caps) -> Stats {
@@ -92,6 +106,21 @@ pub fn bfs<S: Spec>(spec: &S, max_depth: usize, dedup: bool, rep: &Report, caps:
         if t0.elapsed().as_secs_f64() > caps.max_secs || stats.states > caps.max_states {
             stats.capped = true;
             break;
+        }
+        // memory guard: the next level is at most |frontier| × |alphabet| nodes; stop (and say so)
+        // rather than be killed. Growth factor is estimated from the last two levels.
+        {
+            let rss = rss_bytes();
+            let n = stats.per_depth_states.len();
+            let growth = if n >= 2 && stats.per_depth_states[n - 2] > 0 {
+                (stats.per_depth_states[n - 1] as f64 / stats.per_depth_states[n - 2] as f64).max(1.0)
+            } else {
+                8.0
+            };
+            if rss > (1 << 30) && (rss as f64) * growth > rss_cap() as f64 {
+                stats.capped = true;
+                break;
+            }
         }
         // expand every frontier node in parallel
         let expanded: Vec<Vec<(Node<S::M>, u128, u8)>> = crate::util::par_map(&frontier, |_, node| {
